@@ -66,6 +66,11 @@ pub fn programs() -> Vec<Prog> {
         p("ctl-same-fact-three-origins", vec!["n(1); n(2); r($x) <- n($x);", "r($x) <- n($x); n(3);", "r($x) <- n($x) trusting previous; check if r(3);"], "r($x) <- n($x); check if r(1); check all r($x), $x < 3; allow if r(2); deny if true;", vec!["q($x) <- r($x)", "q($x) <- r($x) trusting previous"]),
         p("ctl-same-fact-via-two-rules", vec!["n(1); a($x) <- n($x); r($x) <- a($x);", "r($x) <- n($x); reject if r(2);"], "reject if r(5); check if r(1); allow if true;", vec!["q($x) <- r($x)"]),
         p("ctl-all-bindings-err", vec![], "n(0); check if n($x), 10 / $x > 0; allow if true;", vec![]),
+        // derivation chains that cross rule groups (one group per trusted-origin set): the number of fixpoint
+        // iterations, and with it what a tight iteration budget allows, must not depend on the group order
+        p("ctl-chain-across-two-groups", vec!["a(1); b($x) <- a($x);", "c($x) <- b($x) trusting previous; check if c(1);"], "allow if true;", vec!["q($x) <- c($x) trusting previous"]),
+        p("ctl-chain-across-three-groups", vec!["a(1); b($x) <- a($x);", "c($x) <- b($x) trusting previous;", "d($x) <- c($x) trusting previous; check if d(1);"], "e($x) <- a($x); allow if e(1); deny if true;", vec!["q($x) <- d($x) trusting previous"]),
+        p("ctl-chain-back-and-forth", vec!["a(1); c($x) <- b($x);", "b($x) <- a($x) trusting previous; d($x) <- c($x) trusting previous; check if d(1);"], "allow if true;", vec!["q($x) <- d($x) trusting previous"]),
         // --- programs where some bindings make an expression fail
         p("check-if/erroring+matching-binding", vec![], "n(0); n(1); n(2); check if n($x), 10 / $x > 0; allow if true;", vec![]),
         p("policy/erroring+matching-binding", vec![], "n(0); n(1); allow if n($x), 10 / $x > 0; deny if true;", vec![]),
